@@ -122,6 +122,13 @@ structure BlockIn where
   slotProposer : Option UInt64
   deriving Repr
 
+/-- the last step: compare the expected proposer (`none` = lookup failed) with `proposer_index`;
+`MarkBlock` only on ACCEPT -/
+def blockFinish (i : BlockIn) (q : List String) (expected : Option UInt64) : Out :=
+  match expected with
+  | none => ign q
+  | some p => if p != i.proposer then rej q else acc q [call "MarkBlock" [i.slot, i.proposer]]
+
 def validateBlock (i : BlockIn) : Out :=
   if i.maxSlot < i.slot then ign
   else
@@ -137,22 +144,11 @@ def validateBlock (i : BlockIn) : Out :=
         if !i.parentEpc then ign q
         else if !i.pubkeyKnown then ign q
         else if !(i.digestOk && i.sig) then rej q
-        else
-          let targetEpoch := epochOf i.spe i.slot
-          let parentEpoch := epochOf i.spe i.parentSlot
-          -- MarkBlock only on ACCEPT (after the expected-proposer check)
-          let cmp (p : UInt64) : Out :=
-            if p != i.proposer then rej q else acc q [call "MarkBlock" [i.slot, i.proposer]]
-          if parentEpoch == targetEpoch then
-            match i.sameEpochProposer with
-            | none => ign q
-            | some p => cmp p
-          else if parentEpoch > targetEpoch then rej q
-          else if !i.towards then ign q
-          else if !i.slotEpc then ign q
-          else match i.slotProposer with
-            | none => ign q
-            | some p => cmp p
+        else if epochOf i.spe i.parentSlot == epochOf i.spe i.slot then blockFinish i q i.sameEpochProposer
+        else if epochOf i.spe i.parentSlot > epochOf i.spe i.slot then rej q
+        else if !i.towards then ign q
+        else if !i.slotEpc then ign q
+        else blockFinish i q i.slotProposer
 
 /-! ## beacon_attestation_{subnet_id} -/
 
